@@ -2,6 +2,7 @@
 From Coq Require Import List NArith ZArith Bool.
 From OxiVerif Require Import IO.Dddmp IO.DddmpProofs IO.DddmpAsciiProofs.
 From OxiVerif Require Import IO.DddmpFile IO.DddmpFileProofs IO.DddmpFileSafety IO.DddmpFileRoundtrip IO.DddmpFileWhole IO.DddmpFileNoPanic IO.DddmpFileSem.
+From OxiVerif Require Import IO.DddmpTdd IO.DddmpTddProofs IO.DddmpTddSafety IO.DddmpTddExamples.
 Import ListNotations.
 Open Scope N_scope.
 
@@ -382,3 +383,212 @@ Print Assumptions C15_bdd_not_semantics.
      pairwise distinct names
        forall strict names out err, NoDup (filter nonempty names) ->
          export_var_names strict names = (Some out, err) -> NoDup out *)
+
+(** ** package C15t: ternary decision diagrams (TDD) and the export settings
+    (model IO/DddmpTdd.v, proofs IO/DddmpTddProofs.v, IO/DddmpTddSafety.v, notes/C15t.md).
+    [tdd_import_* true] is the generic [import_ascii] of the code with ARITY = 3 (it cannot be
+    instantiated: static assertion in [import_bin]); [tdd_import_* false] is the decoder of the
+    format the exporter writes (arity check only for inner nodes). *)
+
+(** ExportSettings: every getter returns what the matching builder method stored and leaves
+    the other fields alone *)
+Theorem C15_tdd_settings_getters : forall s,
+  (forall v, get_version3 (set_version s v) = v /\ is_ascii (set_version s v) = is_ascii s /\
+             is_strict (set_version s v) = is_strict s /\ get_diagram_name (set_version s v) = get_diagram_name s) /\
+  (is_ascii (set_ascii s) = true /\ get_version3 (set_ascii s) = get_version3 s /\
+   is_strict (set_ascii s) = is_strict s /\ get_diagram_name (set_ascii s) = get_diagram_name s) /\
+  (is_ascii (set_binary s) = false /\ get_version3 (set_binary s) = get_version3 s /\
+   is_strict (set_binary s) = is_strict s /\ get_diagram_name (set_binary s) = get_diagram_name s) /\
+  (forall b, is_strict (set_strict s b) = b /\ get_version3 (set_strict s b) = get_version3 s /\
+             is_ascii (set_strict s b) = is_ascii s /\ get_diagram_name (set_strict s b) = get_diagram_name s) /\
+  (forall n, get_diagram_name (set_diagram_name s n) = n /\ get_version3 (set_diagram_name s n) = get_version3 s /\
+             is_ascii (set_diagram_name s n) = is_ascii s /\ is_strict (set_diagram_name s n) = is_strict s).
+Proof. exact settings_get_set. Qed.
+Print Assumptions C15_tdd_settings_getters.
+
+(** any chain of builder calls on the default settings: each field is decided by the last call
+    that concerns it (defaults: 2.0, binary if supported, strict, no name) *)
+Theorem C15_tdd_settings_chain : forall cs,
+  apply_setters cs = mkSet (last_version cs) (last_ascii cs) (last_strict cs) (last_name cs).
+Proof. exact settings_chain. Qed.
+Print Assumptions C15_tdd_settings_chain.
+
+(** binary_supported is false for ternary nodes, so a TDD is written in ASCII mode whatever the
+    settings and the terminals are *)
+Theorem C15_tdd_binary_unsupported : forall nterm, binary_supported tdd_arity nterm = false.
+Proof. exact tdd_binary_unsupported. Qed.
+Print Assumptions C15_tdd_binary_unsupported.
+
+Theorem C15_tdd_export_always_ascii : forall s nterm descs, export_ascii_mode s tdd_arity nterm descs = true.
+Proof. exact tdd_export_always_ascii. Qed.
+Print Assumptions C15_tdd_export_always_ascii.
+
+(** binary kinds: ".mode B" iff the settings do not force ASCII, the manager has one terminal
+    and every exported terminal is printed as "T" (byte 84) *)
+Theorem C15_tdd_export_binary_iff : forall s nterm descs,
+  export_ascii_mode s 2 nterm descs = false <->
+  is_ascii s = false /\ nterm = 1 /\ Forall (fun d => d = [84]) descs.
+Proof. exact export_binary_iff. Qed.
+Print Assumptions C15_tdd_export_binary_iff.
+
+(** AsciiDisplay then ParseTagged::parse is the identity on False / Unknown / True *)
+Theorem C15_tdd_terminal_roundtrip : forall v, tdd_parse_terminal (tdd_desc v) = Some (TRTerm v).
+Proof. exact tdd_parse_desc. Qed.
+Print Assumptions C15_tdd_terminal_roundtrip.
+
+(** one terminal line "{id} {desc} 0 0": read by the decoder, rejected by the arity check of the code *)
+Theorem C15_tdd_line_term : forall slm st id desc r,
+  id < usize_limit -> token desc -> tdd_parse_terminal desc = Some r ->
+  tdd_import_line false true slm st id (term_text id desc) = Ok (mkTS (ts_store st) (ts_nodes st ++ [r])) /\
+  tdd_import_line true true slm st id (term_text id desc) = Err EArity.
+Proof.
+  intros slm st id desc r H1 H2 H3. split; [apply tdd_import_line_term; assumption|apply tdd_import_line_term_strict; assumption].
+Qed.
+Print Assumptions C15_tdd_line_term.
+
+(** one inner node line "{id} {var_idx} {then} {unknown} {else}": both readers rebuild the node *)
+Theorem C15_tdd_line_inner : forall slm terms, incr slm -> Forall (fun x => x < level_max) slm ->
+  forall strict l j nd,
+  twf_dag slm terms l -> nth_error l j = Some nd ->
+  N.of_nat (length terms) + 1 + N.of_nat j <= isize_max -> N.of_nat (length slm) <= 4294967296 ->
+  tdd_import_line strict true slm (tstate slm terms l j) (N.of_nat (length terms) + 1 + N.of_nat j)
+                  (tinner_text (N.of_nat (length terms) + 1 + N.of_nat j) (tav nd) (tat nd) (tau nd) (tae nd))
+  = Ok (tstate slm terms l (S j)).
+Proof. exact tdd_import_line_inner. Qed.
+Print Assumptions C15_tdd_line_inner.
+
+(** ROUND TRIP of the node section of every reduced, duplicate-free, bottom-up numbered ternary
+    diagram: exactly the exported nodes, nothing after the section is consumed *)
+Theorem C15_tdd_nodes_roundtrip : forall slm terms l rest,
+  incr slm -> Forall (fun x => x < level_max) slm ->
+  twf_dag slm terms l ->
+  N.of_nat (length terms) + 1 + N.of_nat (length l) <= isize_max ->
+  N.of_nat (length slm) <= 4294967296 ->
+  tdd_import_ascii false true slm (N.of_nat (length terms + length l))
+                   (tdd_export_nodes (tterm_nodes terms ++ map tainner l) ++ rest)
+  = Ok (tstate slm terms l (length l), rest).
+Proof. exact tdd_import_export_nodes. Qed.
+Print Assumptions C15_tdd_nodes_roundtrip.
+
+(** WHOLE-FILE ROUND TRIP (header of any version / names / order / support + node section +
+    ".end"): the decoder returns header_of x, the exported nodes and the exported roots *)
+Theorem C15_tdd_whole_roundtrip : forall x slm terms l,
+  xwf x -> x_ascii x = true ->
+  x_nnodes x = N.of_nat (length terms + length l) ->
+  length slm = length (x_ids x) ->
+  incr slm -> Forall (fun v => v < level_max) slm ->
+  twf_dag slm terms l ->
+  N.of_nat (length terms) + 1 + N.of_nat (length l) <= isize_max ->
+  N.of_nat (length slm) <= 4294967296 ->
+  Forall (troot_ok terms l) (x_rootids x) ->
+  tdd_import_whole false slm (tdd_export_whole x (tterm_nodes terms ++ map tainner l))
+  = TOk (header_of x, tstate slm terms l (length l), map (tsref terms) (x_rootids x)).
+Proof. exact tdd_import_export_whole. Qed.
+Print Assumptions C15_tdd_whole_roundtrip.
+
+(** WHAT THE CODE DOES with the exporter's own TDD files: import_ascii with ARITY = 3 rejects
+    every non-empty node section at its first (terminal) line: "expected 3 children, got 2" *)
+Theorem C15_tdd_code_rejects_nodes : forall slm terms l rest,
+  twf_dag slm terms l -> (length terms + length l <> 0)%nat ->
+  N.of_nat (length terms) < usize_limit ->
+  tdd_import_ascii true true slm (N.of_nat (length terms + length l))
+                   (tdd_export_nodes (tterm_nodes terms ++ map tainner l) ++ rest)
+  = Err EArity.
+Proof. exact tdd_strict_rejects_export. Qed.
+Print Assumptions C15_tdd_code_rejects_nodes.
+
+Theorem C15_tdd_code_rejects_whole : forall x slm terms l,
+  xwf x -> x_ascii x = true ->
+  x_nnodes x = N.of_nat (length terms + length l) -> (length terms + length l <> 0)%nat ->
+  length slm = length (x_ids x) ->
+  twf_dag slm terms l ->
+  tdd_import_whole true slm (tdd_export_whole x (tterm_nodes terms ++ map tainner l)) = TBody EArity.
+Proof. exact tdd_strict_rejects_whole. Qed.
+Print Assumptions C15_tdd_code_rejects_whole.
+
+(** a ".mode B" header is never followed by a node section a ternary importer reads *)
+Theorem C15_tdd_binary_rejected : forall strict slm inp h rest,
+  load_header inp = HOk (h, rest) -> length slm = length (h_ids h) -> h_ascii h = false ->
+  tdd_import_whole strict slm inp = TBinary.
+Proof. exact tdd_binary_rejected. Qed.
+Print Assumptions C15_tdd_binary_rejected.
+
+(** the reader of the code is a restriction of the decoder: same result whenever it accepts *)
+Theorem C15_tdd_strict_implies_lenient : forall slm inp x,
+  tdd_import_whole true slm inp = TOk x -> tdd_import_whole false slm inp = TOk x.
+Proof. exact tdd_strict_implies_lenient. Qed.
+Print Assumptions C15_tdd_strict_implies_lenient.
+
+(** TOTALITY / NO PANIC on arbitrary bytes, both readers: never the internal-error value that
+    stands for an out-of-bounds index (nodes[child - 1]) *)
+Theorem C15_tdd_no_panic : forall strict slm inp,
+  tdd_import_whole strict slm inp <> THdr HInternal /\ tdd_import_whole strict slm inp <> TBody EInternal.
+Proof. exact tdd_import_whole_no_internal. Qed.
+Print Assumptions C15_tdd_no_panic.
+
+(** node section + trailer + roots on arbitrary bytes and parameters: no internal error, and
+    what is accepted is a well-formed ternary diagram with one reference per node ID *)
+Theorem C15_tdd_body_safe : forall strict vin slm nnodes rootids inp,
+  tdd_import_file strict vin slm nnodes rootids inp <> Err EInternal /\
+  forall st roots, tdd_import_file strict vin slm nnodes rootids inp = Ok (st, roots) ->
+    tstore_wf (ts_store st) /\ tlevels_in slm (ts_store st) /\
+    Forall (tref_in (ts_store st)) (ts_nodes st) /\ length (ts_nodes st) = N.to_nat nnodes /\
+    Forall (tref_in (ts_store st)) roots /\ length roots = length rootids /\
+    Forall (fun r => (0 < r)%Z /\ Z.abs_N r <= nnodes) rootids /\
+    (N.to_nat nnodes <= length inp)%nat.
+Proof. exact tdd_import_file_safe. Qed.
+Print Assumptions C15_tdd_body_safe.
+
+(** SAFETY OF ACCEPTANCE for the whole file ("never builds a wrong diagram"): well-formed
+    header, acyclic ordered table over the support levels, valid roots, and every root has
+    exactly one three-valued meaning = what tdd_eval_root computes *)
+Theorem C15_tdd_whole_accept_safe : forall strict slm inp h st roots,
+  tdd_import_whole strict slm inp = TOk (h, st, roots) ->
+  header_wf h /\ h_ascii h = true /\ length slm = length (h_ids h) /\
+  tstore_wf (ts_store st) /\ tlevels_in slm (ts_store st) /\
+  Forall (tref_in (ts_store st)) (ts_nodes st) /\ length (ts_nodes st) = N.to_nat (h_nnodes h) /\
+  Forall (tref_in (ts_store st)) roots /\ length roots = length (h_rootids h) /\
+  forall r, In r roots -> forall env,
+    exists v, tdenotes (ts_store st) env r v /\ (forall v', tdenotes (ts_store st) env r v' -> v' = v) /\
+              tdd_eval_root (ts_store st) env r = v.
+Proof. exact tdd_import_whole_safe. Qed.
+Print Assumptions C15_tdd_whole_accept_safe.
+
+(** the short cut used by the extracted reader accepts the same inputs with the same results *)
+Theorem C15_tdd_guarded_equiv : forall strict slm inp,
+  tres_equiv (tdd_import_whole strict slm inp) (tdd_import_whole_guarded strict slm inp).
+Proof. exact tdd_import_whole_guarded_equiv. Qed.
+Print Assumptions C15_tdd_guarded_equiv.
+
+(** every valid reference of a well-formed table has a unique value, computed by tdd_eval with
+    any fuel above the table size *)
+Theorem C15_tdd_ref_denotes : forall s env r, tstore_wf s -> tref_in s r ->
+  exists v, tdenotes s env r v /\ (forall v', tdenotes s env r v' -> v' = v) /\
+            (forall fuel, (length s < fuel)%nat -> tdd_eval s fuel env r = v) /\
+            tdd_eval_root s env r = v.
+Proof. exact tref_denotes. Qed.
+Print Assumptions C15_tdd_ref_denotes.
+
+(** TDDRules::reduce + unique table preserve the meaning: the returned reference denotes
+    "case x_level of true -> t | unknown -> u | false -> e" *)
+Theorem C15_tdd_mk_node_semantics : forall s level t u e s' r,
+  tdd_mk_node s level t u e = (s', r) ->
+  forall env v, tdenotes s' env r v <-> tdenotes s' env (tsel (env level) t u e) v.
+Proof. exact tdd_mk_node_denotes. Qed.
+Print Assumptions C15_tdd_mk_node_semantics.
+
+(** hypotheses satisfiable: the Kleene conjunction of two of three named variables under a
+    non-identity order, two named roots; the theorem applies, the code's reader rejects the
+    file, the decoded root has the Kleene truth table *)
+Theorem C15_tdd_example :
+  xwf ex_tx /\ twf_dag ex_tslm ex_terms ex_tdag /\
+  tdd_import_whole false ex_tslm (tdd_export_whole ex_tx (tterm_nodes ex_terms ++ map tainner ex_tdag))
+  = TOk (header_of ex_tx, tstate ex_tslm ex_terms ex_tdag 3, [TRNode 2; TRNode 0]) /\
+  tdd_import_whole true ex_tslm (tdd_export_whole ex_tx (tterm_nodes ex_terms ++ map tainner ex_tdag))
+  = TBody EArity /\
+  forall a b : tterm,
+    tdd_eval_root (ts_store (tstate ex_tslm ex_terms ex_tdag 3))
+                  (fun l => if l =? 1 then a else if l =? 2 then b else TUnknown) (TRNode 2)
+    = kleene_and a b.
+Proof. exact (conj ex_tx_wf (conj ex_tdag_wf (conj ex_tdd_whole (conj ex_tdd_strict ex_tdd_semantics)))). Qed.
+Print Assumptions C15_tdd_example.
